@@ -91,6 +91,7 @@ func main() {
 		fmt.Printf("unknown property %q\n", *prop)
 		os.Exit(2)
 	}
+	verifDir = *verif
 	os.Exit(runProp(*repo, *verif, *prop, *tier, def, want))
 }
 
